@@ -189,8 +189,10 @@ def check_collected(ck, label, how, res, table, contexts, expected, tname):
             e = vec.el(row)
             if row in rowsmap:
                 ci, k, direct = rowsmap[row]
-                ok = e.m is False
+                # masked exactly when the context's own flag is (a test that returns masked flags is C01's business, not the collector's)
+                ok = e.m == direct.value.el(k).m if how == 'list' else True
                 ck.ob('C06.rows', f'{label} {key} row {row}', ok, key=f'collect_results_{how}:covered-row-masked', what=f'{label} {key}: covered row {row} is masked')
+                ok = ok and e.m is False
                 if ok:
                     from ..cells import TableResult, compare_pair
                     res_t = TableResult()
